@@ -223,8 +223,346 @@ def check_impl_directly(case, r):
     return bad
 
 
+# ---------------------------------------------------------------------------
+# Extracted run of the exact model (DESIGN 1.5): coq/C02/Extract.v -> coq/extract/c02_model.ml,
+# driver coq/extract/c02_driver.ml, binary coq/extract/c02_run built by coq/extract/build.sh
+# (setup.sh, or on demand here).  The binary evaluates ExtractDefs.ex_point per input line.
+
+import os
+import re
+import subprocess
+from concurrent.futures import ThreadPoolExecutor
+
+from harness import core as _core
+
+XDIR = os.path.join(_core.COQ, 'extract')
+XBIN = os.path.join(XDIR, 'c02_run')
+XPROCS = 8
+ALLOWED_EXTRACTION_DIRECTIVES = (
+    'From Coq Require Import ExtrOcamlBasic.',
+    'Extraction Language OCaml.',
+    'Extraction "extract/c02_model.ml" ex_point open_kv Q2Qc.',
+)
+
+
+def extraction_directives():
+    """Every extraction-related vernacular of coq/C02/Extract.v (comments stripped)."""
+    txt = _core.strip_coq_comments(open(os.path.join(_core.COQ, 'C02', 'Extract.v')).read())
+    sent = [re.sub(r'\s+', ' ', x).strip() + '.' for x in re.split(r'\.(?:\s|$)', txt) if x.strip()]
+    return [x for x in sent if re.match(r'(Recursive |Separate )?Extract(ion)?\b', x) or re.search(r'\bExtr[A-Z]\w*', x)]
+
+
+def ensure_extracted(ctx):
+    """Directives gate + binary (built on demand).  Returns True iff the binary is usable."""
+    dirs = extraction_directives()
+    extra = [d for d in dirs if d not in ALLOWED_EXTRACTION_DIRECTIVES]
+    ctx.obligations += 1
+    if extra or len(dirs) != len(ALLOWED_EXTRACTION_DIRECTIVES):
+        ctx.broken.append('coq/C02/Extract.v uses extraction directives other than the declared ones: %s' % (extra or dirs))
+        return False
+    ctx.discharged += 1
+    ctx.trusted.append('extraction (coq/C02/Extract.v), the only directives: ' + ' | '.join(dirs) +
+                       ' -- nat/positive/Z/Q/Qc stay extracted inductive types (no Extract Constant/Inductive of ours); '
+                       'trusted: Coq extraction, ocamlopt, the 60-line conversion driver coq/extract/c02_driver.ml; '
+                       'tested on every run by re-evaluating a sample of its output with vm_compute (ExtractDefs.xcheck, theorem xcheck_sound)')
+    stale = (not os.access(XBIN, os.X_OK)) or any(
+        os.path.exists(f) and os.path.getmtime(f) > os.path.getmtime(XBIN)
+        for f in (os.path.join(_core.COQ, 'C02', 'Extract.v'), os.path.join(_core.COQ, 'C02', 'ExtractDefs.v'),
+                  os.path.join(_core.COQ, 'lib', 'Bsp.v'), os.path.join(XDIR, 'c02_driver.ml')))
+    if stale:
+        with _core.flock('c02extract'):
+            with _core.flock('coqbuild'):
+                rc, out = _core.sh(['bash', os.path.join(XDIR, 'build.sh')], timeout=3000)
+        log('[extract] build.sh rc=%s %s' % (rc, out[-300:].strip()))
+        ctx.checker_cmds.append('bash coq/extract/build.sh')
+    if not os.access(XBIN, os.X_OK):
+        ctx.broken.append('extracted model binary coq/extract/c02_run could not be built')
+        return False
+    return True
+
+
+def qb(x):
+    x = Fraction(x)
+    n = x.numerator
+    return ('-' if n < 0 else '') + bin(abs(n))[2:] + '/' + bin(x.denominator)[2:]
+
+
+def pq(s):
+    a, b = s.split('/')
+    return Fraction(int(a, 2), int(b, 2))
+
+
+def xline(case, i):
+    kv = [fr(h) for h in case['kv']]
+    return '%d %d %d %s %d %s %s' % (case['p'], case['nd'], len(kv), ' '.join(qb(x) for x in kv), len(case['coeffs']),
+                                     ' '.join(qb(c) for c in case['coeffs']), qb(fr(case['pts'][i])))
+
+
+def parse_xline(s):
+    f = s.rstrip('\n').split('|')
+    if len(f) != 5:
+        return None
+    rows = [[pq(t) for t in r.split()] for r in f[2].split(';')]
+    return {'open': f[0] == '1', 'span': int(f[1]), 'ad': rows, 'sev': [pq(t) for t in f[3].split()],
+            'evs': [pq(t) for t in f[4].split()]}
+
+
+def run_extracted(lines, timeout):
+    """Feed the lines to XPROCS instances of the extracted program; returns parsed results in order (None = no answer)."""
+    chunks = [lines[j::XPROCS] for j in range(XPROCS)]
+
+    def one(ch):
+        if not ch:
+            return []
+        try:
+            pr = subprocess.run([XBIN], input='\n'.join(ch) + '\n', stdout=subprocess.PIPE, stderr=subprocess.PIPE,
+                                text=True, timeout=timeout)
+            out = pr.stdout.split('\n')
+        except subprocess.TimeoutExpired as e:
+            o = e.stdout or ''
+            out = (o.decode() if isinstance(o, bytes) else o).split('\n')[:-1]     # drop a cut-off last line
+        res = [parse_xline(x) if x else None for x in out[:len(ch)]]
+        return res + [None] * (len(ch) - len(res))
+    with ThreadPoolExecutor(max_workers=XPROCS) as ex:
+        parts = list(ex.map(one, chunks))
+    res = [None] * len(lines)
+    for j, part in enumerate(parts):
+        res[j::XPROCS] = part
+    return res
+
+
+def gen_extra_cases(ctx):
+    """The volume stream of the extracted run: more knot vectors, and per knot vector the structured points
+    plus full-mantissa random points and points a few ulps away from knots (too expensive for vm_compute)."""
+    rng = ctx.rng
+    thorough = ctx.tier == 'thorough'
+    nkv = 120 if thorough else 60
+    pmax = 12 if thorough else 8
+    nrand = 20
+    cases = []
+    dist = {'p': {}, 'points': {}}
+    for c in range(nkv):
+        p = c % (pmax + 1) if c < 2 * (pmax + 1) else rng.randint(0, pmax)
+        kv, b, mults, mode = gen_kv(rng, p, thorough)
+        pts, kinds = gen_points(rng, b)
+        a, z = float(b[0]), float(b[-1])
+        for _ in range(nrand if p <= 8 else 6):
+            if rng.random() < 0.6:
+                j = rng.randrange(len(b) - 1)
+                lo, hi = float(b[j]), float(b[j + 1])
+                x = lo + (hi - lo) * rng.random()
+                x = min(max(x, lo), hi)
+                kd = 'random53'
+            else:
+                x = float(rng.choice(b))
+                for _ in range(rng.randint(2, 4)):
+                    x = math.nextafter(x, rng.choice([-math.inf, math.inf]))
+                x = min(max(x, a), z)
+                kd = 'ulps'
+            pts.append(x); kinds.append(kd)
+        nd = min(p + 2, rng.choice([p + 2, p + 2, 2, 1]))
+        n = len(kv) - p - 1
+        cases.append({'p': p, 'nd': nd, 'kv': [float(x).hex() for x in kv], 'pts': [x.hex() for x in pts],
+                      'kinds': kinds, 'coeffs': [rng.randint(-8, 8) for _ in range(n)], 'mults': mults, 'mode': mode})
+        dist['p'][p] = dist['p'].get(p, 0) + 1
+        for k in kinds:
+            dist['points'][k] = dist['points'].get(k, 0) + 1
+    return cases, dist
+
+
+def compare_extracted(case, r, i, m):
+    """Implementation floats at point i against the extracted exact result m.  Returns (code, text) or None.
+    Same bounds as Model.check_point for active_deriv/single_ev; additionally ev/deriv (scipy FITPACK splev for
+    degree <= 5, collocation_derivs @ coeffs above) against the model's spline_ev:
+      |ev - exact|      <= 64 (p+1) eps cmax + (p+1) cmax bound_0
+      |deriv_k - exact| <= 8 (p+1) cmax bound_k + 64 eps |exact| + (p+1) cmax bound_k
+    (the bounds check_impl_directly uses between the implementation's own routes, plus the bound of the basis
+    values themselves, so this comparison cannot fail where those two hold)."""
+    p, nd = case['p'], case['nd']
+    kv = [fr(h) for h in case['kv']]
+    n = len(kv) - p - 1
+    uh = case['pts'][i]
+    if not m['open']:
+        return ('x-open-kv', 'extracted open_kv rejects a generated knot vector')
+    span = m['span']
+    if r['spans'][i] != span:
+        return ('x-span', 'findspan(%s) = %d, exact model: %d' % (uh, r['spans'][i], span))
+    if len(m['ad']) != nd + 1 or any(len(row) != p + 1 for row in m['ad']) or len(m['sev']) != n or len(m['evs']) != nd + 1:
+        return ('x-shape', 'extracted result has the wrong shape')
+    h = kv[span + 1] - kv[span]
+    bounds = [deriv_bound(p, k, h) for k in range(nd + 1)]
+    ad = [fr(x) for x in r['ad'][i]]
+    if sum(m['ad'][0]) != 1 or any(sum(m['ad'][k]) != 0 for k in range(1, nd + 1)) or any(v < 0 for v in m['ad'][0]):
+        return ('x-model-sums', 'exact model: values do not sum to one / derivatives not to zero / negative value at u=%s' % uh)
+    for k in range(nd + 1):
+        for j in range(p + 1):
+            if abs(ad[k * (p + 1) + j] - m['ad'][k][j]) > bounds[k]:
+                return ('x-active-deriv', 'active_deriv order %d, function %d at u=%s: impl %r, exact %r' % (
+                    k, j, uh, float(ad[k * (p + 1) + j]), float(m['ad'][k][j])))
+    sev = [fr(x) for x in r['sev'][i]]
+    for j in range(n):
+        inside = span - p <= j <= span
+        if (inside and m['sev'][j] != m['ad'][0][j - (span - p)]) or (not inside and m['sev'][j] != 0):
+            return ('x-model-routes', 'exact model: single_ev(%d) differs from the all-active route at u=%s' % (j, uh))
+        if abs(sev[j] - m['sev'][j]) > 2 * bounds[0]:
+            return ('x-single-ev', 'single_ev(%d) at u=%s: impl %r, exact %r' % (j, uh, float(sev[j]), float(m['sev'][j])))
+    cmax = max([abs(c) for c in case['coeffs']] + [1])
+    ev = fr(r['ev'][i])
+    if abs(ev - m['evs'][0]) > 64 * (p + 1) * EPS * cmax + (p + 1) * cmax * bounds[0]:
+        return ('x-ev', 'ev() at u=%s: impl %r, exact %r' % (uh, float(ev), float(m['evs'][0])))
+    for k in range(1, min(nd, p) + 1):
+        dv = fr(r['deriv'][k - 1][i])
+        if abs(dv - m['evs'][k]) > 9 * (p + 1) * cmax * bounds[k] + 64 * EPS * abs(m['evs'][k]):
+            return ('x-deriv', 'deriv(order %d) at u=%s: impl %r, exact %r' % (k, uh, float(dv), float(m['evs'][k])))
+    return None
+
+
+XHEADER = HEADER.replace('From Verif.C02 Require Import Model.', 'From Verif.C02 Require Import Model ExtractDefs.')
+
+
+def xcheck_term(case, i, m):
+    kv = [fr(h) for h in case['kv']]
+    return 'xcheck %s %d%%nat %d%%nat %s %s %d%%nat %s %s %s' % (
+        clist(kv, cqc), case['p'], case['nd'], clist([Fraction(c) for c in case['coeffs']], cqc), cqc(fr(case['pts'][i])),
+        m['span'], clist([clist(row, cqc) for row in m['ad']]), clist(m['sev'], cqc), clist(m['evs'], cqc))
+
+
+def extracted_stage(ctx, cases, results):
+    """Volume comparison through the extracted program + cross-check of a sample against vm_compute."""
+    import time
+    t0 = time.time()
+    if not ensure_extracted(ctx):
+        return
+    xcases, xdist = gen_extra_cases(ctx)
+    xres = []
+    B = 40
+    from harness.core import DriverError
+    for i in range(0, len(xcases), B):
+        try:
+            xres += ctx.impl.run('harness/impl/c02_driver.py', {'cases': xcases[i:i + B]})['results']
+        except DriverError:
+            for c in xcases[i:i + B]:
+                try:
+                    xres += ctx.impl.run('harness/impl/c02_driver.py', {'cases': [c]})['results']
+                except DriverError as e:
+                    xres.append({'status': 'InterpreterDeath', 'msg': str(e)[:200]})
+    t1 = time.time()
+    nfail = 0
+    for c, r in zip(xcases, xres):
+        for (code, text, i) in check_impl_directly(c, r)[:2]:
+            nfail += 1
+            kind = c['kinds'][i] if i < len(c['kinds']) else '-'
+            ctx.report('impl:%s:%s' % (code, kind), text,
+                       {'p': c['p'], 'kv': [float.fromhex(h) for h in c['kv']], 'kv_hex': c['kv'], 'u_hex': c['pts'][i],
+                        'u': float.fromhex(c['pts'][i]), 'nd': c['nd'], 'stream': 'extracted-volume',
+                        'how': 'bspline.KnotVector(np.array(kv), p); active_deriv/single_ev/collocation(_derivs)/ev/deriv at u'})
+    ctx.cov['property_failures_on_impl'] = ctx.cov.get('property_failures_on_impl', 0) + nfail
+    # every point of the volume stream, and every point of the main stream (the quick tier hands only 16 per
+    # knot vector to vm_compute, degree > 8 only the short dyadic ones)
+    work = []
+    for src, (cs, rs) in enumerate(((xcases, xres), (cases, results))):
+        for ci, (c, r) in enumerate(zip(cs, rs)):
+            if r['status'] != 'Ok':
+                continue
+            for i in range(len(c['pts'])):
+                if c['p'] > 8 and c['kinds'][i] in ('after', 'before', 'random53', 'ulps') and i % 3:
+                    continue            # 53-bit points of degree > 8: every third (cost of the exact rationals)
+                work.append((src, ci, i))
+    work.sort(key=lambda w: -((xcases, cases)[w[0]][w[1]]['p']))      # expensive first: even load over the processes
+    lines = [xline((xcases, cases)[s][ci], i) for (s, ci, i) in work]
+    out = run_extracted(lines, timeout=6000 if ctx.tier == 'thorough' else 1500)
+    t2 = time.time()
+    ncmp = 0
+    nmissing = 0
+    bad = []
+    for (s, ci, i), m in zip(work, out):
+        c, r = ((xcases, xres), (cases, results))[s][0][ci], ((xcases, xres), (cases, results))[s][1][ci]
+        if m is None:
+            nmissing += 1
+            continue
+        ncmp += 1
+        ctx.count(('x', c['kv'], c['p'], c['pts'][i], c['nd']), nontrivial=True)
+        d = compare_extracted(c, r, i, m)
+        if d:
+            bad.append((c, r, i, d))
+    ctx.obligations += 1
+    if nmissing:
+        ctx.broken.append('extracted run: %d of %d cases gave no answer (crash or timeout of coq/extract/c02_run)' % (nmissing, len(work)))
+    else:
+        ctx.discharged += 1
+    for (c, r, i, (code, text)) in bad[:3]:
+        ctx.broken.append('correspondence C02 extracted model<->impl: %s' % text)
+        ctx.report('tie:%s:p%d:%s' % (code, c['p'], c['kinds'][i]),
+                   'implementation differs from the exact model (extracted run) beyond the rounding bound: ' + text,
+                   {'p': c['p'], 'kv': [float.fromhex(h) for h in c['kv']], 'kv_hex': c['kv'], 'u': float.fromhex(c['pts'][i]),
+                    'u_hex': c['pts'][i], 'nd': c['nd'], 'coeffs': c['coeffs'],
+                    'how': 'compare bspline.active_deriv / single_ev / findspan / ev / deriv with the Cox-de Boor recursion in exact arithmetic'})
+    # cross-check of the extraction itself: a sample of the extracted output re-evaluated by vm_compute
+    ok_items = [(w, m) for w, m in zip(work, out) if m is not None]
+    cheap = [(w, m) for (w, m) in ok_items if (xcases, cases)[w[0]][w[1]]['p'] <= 6]
+    nsample = 24 if ctx.tier == 'thorough' else 12
+    sample = []
+    wanted = ['knot', 'end', 'mid', 'after', 'before', 'random', 'random53', 'ulps']
+    pool = list(cheap)
+    ctx.rng.shuffle(pool)
+    for kd in wanted * 3:
+        for it in pool:
+            (s, ci, i) = it[0]
+            if (xcases, cases)[s][ci]['kinds'][i] == kd and it not in sample:
+                sample.append(it)
+                break
+        if len(sample) >= nsample:
+            break
+    texts = []
+    for g in range(0, len(sample), 4):
+        terms = [xcheck_term((xcases, cases)[s][ci], i, m) for ((s, ci, i), m) in sample[g:g + 4]]
+        texts.append(('C02_xcheck_%02d' % (g // 4), XHEADER + 'Definition results := [\n' + ';\n'.join(terms) +
+                      '].\nEval vm_compute in bad_cases 0 results.\n'))
+    nx = 0
+    for (name, ok, o) in ctx.coq_eval_many(texts, timeout=1500):
+        ctx.obligations += 1
+        badidx = parse_coq_list_of_nat(o) if ok else None
+        if badidx is None:
+            ctx.broken.append('cross-check file %s did not evaluate: %s' % (name, o[-500:]))
+        elif badidx:
+            ctx.broken.append('extracted program and vm_compute disagree on the exact model (%s, items %s): extraction is not trustworthy' % (name, badidx))
+        else:
+            ctx.discharged += 1
+            nx += 4
+    if sample:
+        # self-test: a perturbed extracted value / span must be flagged by xcheck
+        ((s, ci, i), m) = sample[0]
+        m1 = dict(m); m1['sev'] = list(m['sev']); m1['sev'][0] = m['sev'][0] + Fraction(1, 10 ** 12)
+        m2 = dict(m); m2['span'] = m['span'] + 1
+        c = (xcases, cases)[s][ci]
+        ctx.selftest('C02_xcheck_selftest', XHEADER + 'Definition results := [\n' + xcheck_term(c, i, m) + ';\n' +
+                     xcheck_term(c, i, m1) + ';\n' + xcheck_term(c, i, m2) + '].\nEval vm_compute in bad_cases 0 results.\n')
+        # self-test of the Python comparison: an implementation value shifted by 1e-9 must be flagged
+        r = ((xcases, xres), (cases, results))[s][1][ci]
+        r1 = dict(r); adp = [list(a) for a in r['ad']]
+        adp[i][0] = (float.fromhex(adp[i][0]) + 1e-9 * max(1.0, abs(float.fromhex(adp[i][0])))).hex()
+        r1['ad'] = adp
+        ctx.obligations += 1
+        if compare_extracted(c, r1, i, m) is None:
+            ctx.broken.append('harness self-test: perturbed implementation value not flagged by the extracted comparison')
+        else:
+            ctx.discharged += 1
+    nfit = sum(1 for (s, ci, i), m in zip(work, out) if m is not None and (xcases, cases)[s][ci]['p'] <= 5)
+    ctx.cov['extracted_run'] = {
+        'points_compared': ncmp, 'of_which_volume_stream': sum(1 for w, m in zip(work, out) if m is not None and w[0] == 0),
+        'points_through_fitpack_route_p_le_5': nfit, 'knot_vectors_volume_stream': len(xcases),
+        'cross_checked_against_vm_compute': len(sample), 'disagreements': len(bad), 'no_answer': nmissing,
+        'input_distribution_volume_stream': xdist,
+        'seconds': {'impl': round(t1 - t0, 1), 'extracted': round(t2 - t1, 1), 'total': round(time.time() - t0, 1)},
+        'directives': extraction_directives(),
+    }
+    log('[extract] %d points compared through the extracted model (%d knot vectors extra), %d cross-checked by vm_compute, '
+        'impl %.1fs extracted %.1fs total %.1fs' % (ncmp, len(xcases), len(sample), t1 - t0, t2 - t1, time.time() - t0))
+
+
 def run(ctx):
     ctx.obligations_stage(PROPS, extra_targets=['C02/Examples.vo', 'C02/Model.vo'])
+    ctx.obligations_stage('C02/Props3.v', extra_targets=['C02/Examples3.vo', 'C02/ExtractDefs.vo', 'C02/Extract.vo'])
     ctx.assumptions += [
         'model: hand transcription of pyx_findspan, bspline_active_deriv_single, _bspline_single_ev_single, collocation index arithmetic into Gallina over Qc (coq/lib/Bsp.v)',
         'float tie: |impl - exact model| <= 8(p+1) 2^k eps p!/(p-k)!/h^k (h = width of the span containing u); spans and column indices exactly',
@@ -318,6 +656,12 @@ def run(ctx):
                    {'p': c['p'], 'kv': [float.fromhex(h) for h in c['kv']], 'pts': [float.fromhex(h) for h in c['pts']],
                     'nd': c['nd'], 'impl_spans': r['spans'],
                     'how': 'compare bspline.active_deriv / single_ev / findspan with the Cox-de Boor recursion in exact arithmetic'})
+    if ctx.tier == 'thorough':
+        # measured: ~0.5-2 cpu-s per point for the extracted inductive Z/Q arithmetic (53-bit points, degree 5..8):
+        # does not fit the quick tier's budget; the quick tier checks the theorems about its entry points only
+        extracted_stage(ctx, cases, results)
+    else:
+        ctx.cov['extracted_run'] = 'thorough tier only (cost of exact rationals over extracted inductive Z/positive)'
     ctx.cov['rule'] = ('open knot vectors (degree 0..6 quick / 0..12 thorough, 2..7 breakpoints on a dyadic grid with span ratios up to 2^40, '
                        'interior multiplicities 1..p) x points (every knot, both ends, span midpoints, adjacent floats of knots, random); '
                        'one evaluation = one (knot vector, point); all routes per point')
